@@ -316,7 +316,9 @@ func (c *EvalCtx) binary(op token.Token, x, y tv) tv {
 			if xn {
 				o = y
 			}
-			if _, isPtr := o.v.(*PtrV); isPtr {
+			if _, isClo := o.v.(*ClosureV); isClo {
+				r = p.False() // a closure value is never nil
+			} else if _, isPtr := o.v.(*PtrV); isPtr {
 				pv := o.v.(*PtrV)
 				if pv.Kind == PHeap && len(pv.Path) == 0 {
 					r = p.Eq(pv.Ref, p.Int(0))
